@@ -11,6 +11,7 @@ Oracle topic c19: the configuration heap model driven by the regenerated effect 
   c19 guest <id>                              -> args=… env=… fs=…   (what a guest instantiated with the node sees)
   c19 safe                                    -> all-safe | unsafe:<recv.Method>,…
   c19 sig <recv> <Method>                     -> params=a,b derived=c flags=f delegate=T | unknown
+  c19 refwriters                              -> methods whose effects write through a slice/map
   c19 methods                                 -> <recv.Method>,…
 Values never contain space , ; ~ | (the harness pools guarantee it).
 -/
@@ -155,6 +156,14 @@ def step (st : St) (args : List String) : St × String :=
     match Wz.Gen.ConfigEffects.sigs.find? (fun s => s.recv == recv && s.name == name) with
     | some s => (st, s!"params={",".intercalate s.params} derived={",".intercalate s.derived} flags={",".intercalate s.flags} delegate={((findMethod tbl recv name).bind (·.delegate)).getD ""}")
     | none => (st, "unknown")
+  | ["refwriters"] =>
+    let ws := tbl.filter (fun m => ((resolve tbl m).getD []).any (fun p => p.effs.any (fun e =>
+      match e with
+      | .indexWrite .. => true
+      | .append .. => true
+      | .mapWrite .. => true
+      | _ => false)))
+    (st, ",".intercalate (ws.map (fun m => s!"{m.recv}.{m.name}")))
   | ["methods"] => (st, ",".intercalate (tbl.map (fun m => s!"{m.recv}.{m.name}")))
   | _ => (st, "bad-op")
 
